@@ -1380,6 +1380,7 @@ class Parallel(Logger):
         self._backend = backend
         self._running = False
         self._managed_backend = False
+        self._calling = False
         self._id = uuid4().hex
         self._call_ref = None
 
@@ -2075,40 +2076,50 @@ class Parallel(Logger):
         # thread only -- store its value in an attribute for further queries.
         self._cached_effective_n_jobs = n_jobs
 
-        backend_name = self._backend.__class__.__name__
-        if n_jobs == 0:
-            raise RuntimeError("%s has no active worker." % backend_name)
+        try:
+            backend_name = self._backend.__class__.__name__
+            if n_jobs == 0:
+                raise RuntimeError("%s has no active worker." % backend_name)
 
-        self._print(f"Using backend {backend_name} with {n_jobs} concurrent workers.")
-        if hasattr(self._backend, "start_call"):
-            self._backend.start_call()
+            self._print(
+                f"Using backend {backend_name} with {n_jobs} concurrent workers."
+            )
+            if hasattr(self._backend, "start_call"):
+                self._backend.start_call()
 
-        # Following flag prevents double calls to `backend.stop_call`.
-        self._calling = True
+            # Following flag prevents double calls to `backend.stop_call`.
+            self._calling = True
 
-        iterator = iter(iterable)
-        pre_dispatch = self.pre_dispatch
+            iterator = iter(iterable)
+            pre_dispatch = self.pre_dispatch
 
-        if pre_dispatch == "all":
-            # prevent further dispatch via multiprocessing callback thread
-            self._original_iterator = None
-            self._pre_dispatch_amount = 0
-        else:
-            self._original_iterator = iterator
-            if hasattr(pre_dispatch, "endswith"):
-                pre_dispatch = eval_expr(pre_dispatch.replace("n_jobs", str(n_jobs)))
-            # The calling thread has to dispatch at least one task: with an
-            # empty initial slice (e.g. pre_dispatch='0.25*n_jobs' with
-            # n_jobs=2) nothing would ever run and the call would silently
-            # return no result.
-            self._pre_dispatch_amount = pre_dispatch = max(int(pre_dispatch), 1)
+            if pre_dispatch == "all":
+                # prevent further dispatch via multiprocessing callback thread
+                self._original_iterator = None
+                self._pre_dispatch_amount = 0
+            else:
+                self._original_iterator = iterator
+                if hasattr(pre_dispatch, "endswith"):
+                    pre_dispatch = eval_expr(
+                        pre_dispatch.replace("n_jobs", str(n_jobs))
+                    )
+                # The calling thread has to dispatch at least one task: with an
+                # empty initial slice (e.g. pre_dispatch='0.25*n_jobs' with
+                # n_jobs=2) nothing would ever run and the call would silently
+                # return no result.
+                self._pre_dispatch_amount = pre_dispatch = max(int(pre_dispatch), 1)
 
-            # The main thread will consume the first pre_dispatch items and
-            # the remaining items will later be lazily dispatched by async
-            # callbacks upon task completions.
+                # The main thread will consume the first pre_dispatch items and
+                # the remaining items will later be lazily dispatched by async
+                # callbacks upon task completions.
 
-            # TODO: this iterator should be batch_size * n_jobs
-            iterator = itertools.islice(iterator, self._pre_dispatch_amount)
+                # TODO: this iterator should be batch_size * n_jobs
+                iterator = itertools.islice(iterator, self._pre_dispatch_amount)
+        except BaseException:
+            # No output generator will release the backend (workers started
+            # for this call, start_call): do it here.
+            self._terminate_and_reset()
+            raise
 
         # Use a caching dict for callables that are pickled with cloudpickle to
         # improve performances. This cache is used only in the case of
